@@ -208,7 +208,9 @@ func execStep(mgr *server.Manager, cmd [][]byte) (out string) {
 //	DUMP
 //	END
 //
-// The same Manager is shared by all connections of a case (as server.Start does).
+// The Manager (the databases) is shared by all connections of a case, as server.Start does; every
+// connection id gets its own NewConnView(), as server.Manager.Handle does, so SELECT is
+// per-connection state (memx.go runs the same programs through the real Handle).
 func memRunCmd(args []string) error {
 	if len(args) != 3 {
 		return fmt.Errorf("memrun <prog> <out> <scratch>")
@@ -228,6 +230,7 @@ func memRunCmd(args []string) error {
 	sc := bufio.NewScanner(f)
 	sc.Buffer(make([]byte, 1<<20), 1<<28)
 	var mgr *server.Manager
+	views := map[string]*server.Manager{}
 	progress, _ := os.Create(args[1] + ".progress")
 	defer progress.Close()
 	for sc.Scan() {
@@ -241,6 +244,7 @@ func memRunCmd(args []string) error {
 			dbs, _ := strconv.Atoi(fs[2])
 			cfg := setupServer(dbs, args[2])
 			mgr = server.NewManager(cfg)
+			views = map[string]*server.Manager{}
 			fmt.Fprintf(w, "CASE %s %d\n", fs[1], dbs)
 			progress.Seek(0, 0)
 			fmt.Fprintf(progress, "%s\n", fs[1])
@@ -254,7 +258,12 @@ func memRunCmd(args []string) error {
 				cmd = append(cmd, unhx(h))
 			}
 			now := time.Now()
-			out := execStep(mgr, cmd)
+			view, ok := views[fs[1]]
+			if !ok {
+				view = mgr.NewConnView()
+				views[fs[1]] = view
+			}
+			out := execStep(view, cmd)
 			fmt.Fprintf(w, "S %d %d %s %s | %s\n", now.Unix(), now.UnixMilli(), fs[1], strings.Join(fs[3:], " "), out)
 		case "DUMP":
 			now := time.Now().Unix()
